@@ -15,14 +15,15 @@ def gen_programs(seed, n, objects=True, gens=True, orders=False, first_id=0, lim
     return progs
 
 
-def load_c01_findings():
-    """open findings of C01: feature -> finding (they describe defects of the language core and are shared by every
-    check that runs MiniJS programs)"""
+def load_c01_findings(props=("C01",)):
+    """open findings keyed by a MiniJS ghost feature: feature -> finding.  The C01 ones describe defects of the language
+    core and are shared by every check that runs MiniJS programs."""
     out = {}
-    for f in vlib.load_known("C01"):
-        k = f.get("key", {})
-        if k.get("kind") == "minijs" and "feature" in k:
-            out[k["feature"]] = f
+    for p in props:
+        for f in vlib.load_known(p):
+            k = f.get("key", {})
+            if k.get("kind") == "minijs" and "feature" in k:
+                out[k["feature"]] = f
     return out
 
 
@@ -32,8 +33,11 @@ def replay_witnesses(exe, findings):
     for feat, f in findings.items():
         w = f.get("witness_program")
         if not w: continue
-        src = 'import { LOG, ERR } from "verif:host";\n(function () { "use strict"; try {\n' + w["body"] + '\n} catch (e) { ERR(e); } })();\n'
-        jobs.append({"id": len(order), "source": src, "resp": [], "mode": "immediate", "path": "/p/main.ts", "max_steps": 50000})
+        if w.get("async"):
+            src = 'import { LOG, ERR } from "verif:host";\nimport { order } from "tsrun:host";\ntry {\n' + w["body"] + '\n} catch (e) { ERR(e); }\n'
+        else:
+            src = 'import { LOG, ERR } from "verif:host";\n(function () { "use strict"; try {\n' + w["body"] + '\n} catch (e) { ERR(e); } })();\n'
+        jobs.append({"id": len(order), "source": src, "resp": w.get("resp", []), "mode": "deferred" if w.get("async") else "immediate", "path": "/p/main.ts", "max_steps": 50000})
         order.append(feat)
     res = M.run_jobs(exe, "prog", jobs, nproc=min(8, max(1, len(jobs))))
     live = {}
@@ -47,9 +51,9 @@ def replay_witnesses(exe, findings):
 
 
 class Judge:
-    def __init__(self, check, exe, label="program"):
+    def __init__(self, check, exe, label="program", props=("C01",)):
         self.c = check; self.exe = exe; self.label = label
-        self.findings = load_c01_findings()
+        self.findings = load_c01_findings(props)
         self.live = replay_witnesses(exe, self.findings)
         self.stats = collections.Counter()
         self.known_counts = collections.Counter()
